@@ -13,8 +13,10 @@ MANIFEST = dict(
     text=("numba's deviations from Python semantics are: unchecked array indices, typed signatures (dtype/layout), "
           "globals frozen at compile time. Lean theorems (re-exported in D3/Properties/C20.lean) discharge the "
           "obligations under which these are unobservable for the modelled kernels: every array access of the AABB "
-          "tree queries is in range on every well-formed state (query_index_safe, from C05), the empty tree is handled "
-          "(empty_query_ok), constants read by the model equal the module constants (regenerated D3/Gen/Constants). "
+          "tree is in range for every insertion history and every query (insert_index_safe, query_index_safe, from C05), "
+          "the empty tree is handled (empty_tree_no_read), the typed support kernels never see a non-contiguous array "
+          "for contiguous poses (typed_signatures_ok, from C14), constants read by the model equal the module constants "
+          "(regenerated D3/Gen/Constants). "
           "Everything else is decided by a two-engine differential: the same call list (distance primitives, supports, "
           "AABBs, containment, GJK/EPA/MPR flavours, AABB-tree histories incl. empty trees, half-plane kernels, "
           "hydroelastic contact) is executed in two interpreter processes (JIT on as installed / NUMBA_DISABLE_JIT=1) "
@@ -31,10 +33,12 @@ EXPLANATION = ("two processes (JIT / interpreted) execute the identical pickled 
                "forms 1e-9 relative, iterative solvers within the accuracy of C01/C07-C09, booleans/index sets/exception "
                "types identical away from decision boundaries")
 PARTIAL = {
-    "insert_index_safe": "array accesses of insert_leaf/fix_upward_tree are in range for every history: follows from "
-                         "insertLeaf_refines which is checked at run time (C05), not proved",
     "numba_codegen": "numba's code generation is not verified; only the obligations that make its documented "
-                     "deviations unobservable are",
+                     "deviations unobservable are (AABB tree index safety for every history and query, typed "
+                     "signatures of the collider support kernels, the empty-tree reads)",
+    "other_kernels_index_safety": "index safety of the half-plane buffer (C15: F-C15-halfplane-buffer is a known finding), "
+                                  "EPA face/edge arrays and simplex arrays is covered by the owning properties' models "
+                                  "(checked reads) and by the differential only",
 }
 ASSUMPTIONS = ["numba implements its documented semantics (negative-index wraparound, no bounds checks, assert supported)",
                "both engines run the same numpy/BLAS build"]
